@@ -89,6 +89,11 @@ def check_pitch(inp):
     k, v, o, m, a = inp['note']
     n = Note(k, v, o, 1, mode=m, accident=a)
     try:
+        if m is not None or a is not None:
+            # the plain note first, on the same chord object: the pitch of a note must not depend on what was asked
+            # before (seed C03-5: a memoised pitch function keyed on an equality that ignores the accidental), and a
+            # replay in a fresh process then shows the same thing
+            c.to_pitch(Note(k, v, o, 1))
         got = c.to_pitch(n)
     except Exception as e:
         return {'observed': f'{type(e).__name__}: {e}', 'expected': 'a pitch'}
@@ -178,12 +183,18 @@ def gen_pairs(ctx, n_random):
     for _ in range(n_random):
         c, text = gen.rand_chord(rng)
         pairs.append((c, text, gen.rand_note(rng, vals=(-40, 40), octs=(-6, 6))))
-    # every accidental cell
+        if rng.random() < 0.15:
+            # a near-duplicate on the SAME chord object (equal but for accidental / mode): caches keyed on an
+            # equality that omits a field only go wrong on these (seed C03-5)
+            pairs.append((c, text, gen.sibling_note(rng, pairs[-1][2], 1, 1, 0)))
+    # every accidental cell, right after the plain note on the same chord object
     for v in range(7):
         for a in gen.ACCS:
             c, text = gen.rand_chord(rng, ext='')
             from musiclang import Note
-            pairs.append((c, text, Note('s', v, rng.randint(-2, 2), 1, accident=a)))
+            o = rng.randint(-2, 2)
+            pairs.append((c, text, Note('s', v, o, 1)))
+            pairs.append((c, text, Note('s', v, o, 1, accident=a)))
     # bare chords: written without a tonality (C major is meant), at any chord octave (seed C02-4)
     for _ in range(12 + n_random // 60):
         fig = rng.choice(gen.FIGS)
